@@ -10,10 +10,11 @@ RULE = (
     "C-GET with real C-STORE sub-operations answered by a scripted peer, C-MOVE with a scripted store association) served on "
     "one thread-free acceptor association, message IDs from a small colliding pool plus the US range, 0..4 results each, and "
     "0..14 C-CANCEL requests whose Message ID Being Responded To is the current operation's ID, another operation's ID, a "
-    "neighbouring ID or one of 16 unrelated IDs. Each cancel is delivered as the peer's P-DATA through "
-    "DIMSEServiceProvider.receive_primitive at a generated point: before the operation's request arrives, (30 % of "
-    "operations, request delivered through the DIMSE queue and dispatched the way the association reactor does) after the "
-    "request was received but before it is dispatched, at any of the handler's own execution points (before its first "
+    "neighbouring ID or one of 16 unrelated IDs. Requests and cancels are delivered as the peer's P-DATA through "
+    "DIMSEServiceProvider.receive_primitive; requests are then dispatched the way the association reactor does "
+    "(get_msg + _serve_request). Each cancel arrives at a generated point: before the operation's request arrives, (30 % "
+    "of operations) after the request was received but before it is dispatched, at any of the handler's own execution "
+    "points (before its first "
     "yield, between two yields, after its last yield), between operations, or after the last one. At generated execution "
     "points the handler reads event.is_cancelled; optionally it then yields 0xFE00 and returns as documented. The recorded "
     "history (cancel arrivals, polls) is judged by an independent model. Non-trivial = an operation polled while a cancel "
@@ -21,11 +22,11 @@ RULE = (
     "matching cancel arriving between two polls. Distinct = distinct case."
 )
 ASSUMPTIONS = [
-    "an operation is in progress from the moment Association._serve_request is entered for its request until it returns; "
-    "in the via-queue variant from the moment its request primitive has been received by the DIMSE provider "
-    "(dimse.receive_primitive completed it) - a peer can only name the operation after sending the request, so a C-CANCEL "
-    "that follows the request on the wire is for that operation (labelled separately: clause missed, key "
-    "received-before-dispatch)",
+    "an operation is in progress from the moment its request primitive has been received by the DIMSE provider "
+    "(dimse.receive_primitive completed it) until Association._serve_request returns - a peer can only name the operation "
+    "after sending the request, so a C-CANCEL that follows the request on the wire is for that operation. Cancels that "
+    "arrive between receipt and dispatch are a separately labelled class (clause missed, key received-before-dispatch; "
+    "set QUEUED_WINDOW = False to drop the class if 'in progress' is to mean 'being served')",
     "must-report: once a matching C-CANCEL has arrived during the operation, the next read of event.is_cancelled is True; "
     "must-not-report: before any matching C-CANCEL has arrived during the operation every read is False, whatever arrived "
     "for other IDs, before the operation, or during earlier operations (also with the same message ID)",
@@ -38,6 +39,9 @@ ASSUMPTIONS = [
 ]
 SHARDS = {"quick": 1, "thorough": 16}
 MIN_NONTRIVIAL = 50
+
+
+QUEUED_WINDOW = True
 
 
 class _Stop(Exception):
@@ -107,7 +111,9 @@ def _check(ctx, case):
         if head_is_cancel(a):
             stopped = "reactor-would-crash"
             break
-        via_queue = bool(op.get("via_queue"))
+        # the request always arrives as the peer's P-DATA and is dispatched the way _run_reactor does it; the
+        # "queued" window (cancels between receipt and dispatch) is empty unless the case says otherwise
+        via_queue = True
         slots = op.get("slots", [])
         started = {"v": False}
 
@@ -115,7 +121,7 @@ def _check(ctx, case):
             if slot == "queued":
                 log.append(("start", oi, op["msg_id"]))
                 started["v"] = True
-                for mid in op.get("queued", []):
+                for mid in op.get("queued", []) if QUEUED_WINDOW else []:
                     deliver(mid, "queued", oi, cx)
                 return None
             if not started["v"]:
@@ -137,10 +143,6 @@ def _check(ctx, case):
                     return "stop"
             return None
 
-        if not via_queue:
-            # the operation starts when _serve_request is entered: nothing can arrive between that and the
-            # handler's first execution point in this thread-free harness
-            pass
         res = Q.run_op(a, qop, hook=hook, via_queue=via_queue)
         if not started["v"]:
             log.append(("start", oi, op["msg_id"]))  # handler never ran (e.g. request refused)
@@ -203,8 +205,8 @@ def _check(ctx, case):
     classes.add(f"ops={len(ops)}")
     ncancel = sum(1 for e in log if e[0] == "cancel")
     classes.add("cancels=0" if ncancel == 0 else ("cancels=1-4" if ncancel <= 4 else ("cancels=5-9" if ncancel <= 9 else "cancels>=10")))
-    if any(o.get("via_queue") for o in ops):
-        classes.add("via-queue")
+    if any(o.get("queued") for o in ops):
+        classes.add("cancel-in-queued-window")
     ctx.note(case, nontrivial=nontrivial and polls > 0, classes=sorted(classes))
 
     hist = [e for e in log]
@@ -254,7 +256,7 @@ def strategy(quick):
             "svc": st.sampled_from(["find", "find", "get", "move", "mwl", "srfind"]),
             "msg_id": st.one_of(st.sampled_from(POOL), st.sampled_from(POOL), st.integers(0, 65535)),
             "yields": st.integers(0, 4),
-            "via_queue": st.sampled_from([False] * 7 + [True] * 3),
+            "via_queue": st.sampled_from([False] * 7 + [True] * 3),  # True: cancels may fall into the queued window
             "before": cancels,
             "queued": few,
             "slots": st.lists(slot, min_size=0, max_size=7),
